@@ -821,7 +821,7 @@ pub fn describe(p: &Program, ex: &Execution) -> serde_json::Value {
         "context_switches": ex.info.switches,
         "calls": ex.calls.iter().map(|c| format!("T{} [{}..{}] {:?} -> {}", c.tid, c.start, c.end, c.op, match &c.result {
             CallResult::Added => "added".to_string(),
-            CallResult::Matched { fills, remaining, .. } => format!("fills {:?} remaining {}", fills.iter().map(|f| (f.0.to_string()[..8].to_string(), f.1)).collect::<Vec<_>>(), remaining),
+            CallResult::Matched { fills, remaining, .. } => format!("fills {:?} remaining {}", fills.iter().map(|f| (crate::spec::short_id(f.0), f.1)).collect::<Vec<_>>(), remaining),
             CallResult::Updated(r) => format!("{:?}", r.as_ref().map(|o| o.as_ref().map(brief))),
             CallResult::Read { vis, hid, count } => format!("read {vis}/{hid}/{count}"),
             CallResult::Panicked(m) => format!("PANIC {m}"),
